@@ -1,4 +1,5 @@
 from lib_parser import *
+import lib_json as LJ
 
 EXPLANATION = ('The recursive-descent parser JSON::JSONParser<char, StringStream<char>> (Parse, parseValue, parseArray, parseObject) enforced function by function, '
                'each against a contract that carries the all-or-nothing argument through the mutual recursion without a depth bound.')
@@ -8,5 +9,15 @@ ASSUMPTIONS = ['destructor calls of Value/String temporaries and locals are drop
                'StringStream<char> satisfies its representation invariant (C14)']
 
 
+def unescape_hex_job():
+    c = 'char'
+    sp = LJ.unescape_safety_specs(c)
+    return dict(name='UnEscape<char>.hex-digits', unit=LJ.UNIT, fn=LJ.fn_unescape(c), roots=['Qentem::JSONUtils::UnEscape<%s, QV::GStream<%s>>' % (c, c)],
+                specs=sp, replace=[LJ.fn_write(c), LJ.fn_append(c), LJ.fn_notempty(c), LJ.fn_hex2(c), LJ.fn_hex3(c), LJ.fn_toutf(c)], ghosts=LJ.GH_HEX, pre=LJ.HEX_PRE,
+                prune_specs=True, cex_K=8, solver='cadical', timeout=300, must_have=['postcondition', 'loop_invariant_step'],
+                scope_re=LJ.unescape_hex_scope(sp[LJ.fn_unescape(c)])[0], scope_note='memory safety of UnEscape is decided under C05',
+                clause='a string is accepted only if every \\\\u escape in it is followed by four hex digits (no hex reader stopped early)')
+
+
 def jobs(tier):
-    return parser_jobs('C07') + leaf_jobs()
+    return parser_jobs('C07') + leaf_jobs() + [unescape_hex_job()]
